@@ -36,6 +36,10 @@ type Rpc struct {
 	PathVars []string `json:"pathVars"`
 	Query    []QP     `json:"query"`
 	Hdrs     []Hdr    `json:"hdrs"`
+	// RPCs with the same non-empty Group are methods of ONE service, declared in Ord order (their
+	// service-level headers are the same); "" = a service of its own
+	Group string `json:"group"`
+	Ord   int    `json:"ord"`
 }
 
 type KV struct {
